@@ -491,6 +491,8 @@ Definition C28_CONSTANTS : list N :=
           4 ..                 arbitrary bytes to from_cbor: not modelled (S only), answers [0]
           6 props              encode_properties(compress) then properties(): brotli is external, not
                                modelled (S only), answers [0]
+          8 bytes..            from_cbor of a crafted properties value (galleries with missing / malformed ids,
+                               packed txids of any length): the decoded properties
           7 ..                 as 4 (declared lengths beyond the input; run in a child process), answers [0]
           5 seed b z pad vlen enc err sizes..   as op 1 for a value given by a descriptor (expanded by the
                                harness only); the model runs the loop on lengths: 0 | 1 len
@@ -533,6 +535,7 @@ Definition run_C28 (inp : list Z) : list Z :=
   | 4%Z :: _ => [0%Z]
   | 6%Z :: _ => [0%Z]
   | 7%Z :: _ => [0%Z]
+  | 8%Z :: bs => write_props (from_cbor (ns bs))
   | 9%Z :: nil => zs C28_CONSTANTS
   | _ => [(-1)%Z]
   end.
